@@ -944,7 +944,7 @@ func gen(w *bufio.Writer, args map[string]string) {
 		em.lines = append(em.lines, line{"sha " + sup.Hx(string(b)), 1})
 	}
 
-	reps, permMax, bigN, nRand := 50, 5, 2000, 600
+	reps, permMax, bigN, nRand := 50, 5, 6000, 600
 	if thorough {
 		reps, permMax, bigN, nRand = 500, 7, 10000, 5000
 	}
